@@ -1,5 +1,5 @@
 (* C11 — breakpoints always stop execution before the marked instruction. *)
-From Lace Require Import Word Machine Isa Vm Asm Dbg DbgProofs.
+From Lace Require Import Word Machine Isa Vm Asm Dbg DbgProofs DbgRef.
 Open Scope N_scope.
 
 (** Whenever the PC carries a breakpoint — whatever is pending (continue, step, step into, step
@@ -31,3 +31,41 @@ Proof.
   split; [apply bp_remove_sorted; assumption|apply with_orig_sorted; assumption].
 Qed.
 Print Assumptions C11_sorted_ops.
+
+(** The property's sentences in the reference semantics of the stepping commands (DbgRef.v, which the
+    debugger refines for every count, state and breakpoint set: C10_reference, C10_reference_at).
+    Reaching an address that carries a breakpoint pauses before its instruction executes, whatever
+    was running; *)
+Theorem C11_ref_fires : forall feat bps fuel m st k, bp_get bps (s_pc st) <> None ->
+  ref_at feat bps (S fuel) m st k = PEPaused st k.
+Proof. exact ref_at_breakpoint. Qed.
+Print Assumptions C11_ref_fires.
+
+(** an address without a breakpoint (not HALT, in user space) never pauses `continue` — in
+    particular one whose breakpoint was removed (C11_add_remove); *)
+Theorem C11_ref_silent : forall feat bps fuel st k,
+  bp_get bps (s_pc st) = None -> at_halt st = false -> oob st = false ->
+  ref_at feat bps (S fuel) MCont st k =
+  match vm_step feat st with
+  | Running st' => ref_at feat bps fuel MCont st' (S k)
+  | Exited c s => PEStopped 1 c s (S k)
+  | Panicked s => PEStopped 2 0 s (S k)
+  | Diverged => PEStopped 3 0 st (S k)
+  end.
+Proof. exact ref_at_no_breakpoint. Qed.
+Print Assumptions C11_ref_silent.
+
+(** resuming executes the marked instruction — once: what follows is an ordinary [ref_at] state at
+    which the breakpoint fires again when control comes back to it. *)
+Theorem C11_ref_resume : forall feat bps fuel c st m,
+  mode_of_cmd feat c st = Some m -> at_halt st = false -> oob st = false ->
+  exists m', mode_next m st = Some m' /\
+  ref_cmd feat bps fuel c st =
+  match vm_step feat st with
+  | Running st' => ref_at feat bps fuel m' st' 1
+  | Exited cd s => PEStopped 1 cd s 1
+  | Panicked s => PEStopped 2 0 s 1
+  | Diverged => PEStopped 3 0 st 1
+  end.
+Proof. exact ref_cmd_leaves_breakpoint. Qed.
+Print Assumptions C11_ref_resume.
